@@ -8,7 +8,12 @@ mod proto;
 mod zoo;
 
 mod c01;
+mod c02;
+mod p3forge;
+mod c05;
 mod c09;
+mod c17;
+mod c18;
 
 use common::*;
 use std::time::Instant;
@@ -27,7 +32,11 @@ fn main() {
     // A panic escaping a driver is a harness error (exit 4), never a verdict.
     let r = std::panic::catch_unwind(std::panic::AssertUnwindSafe(|| match prop.as_str() {
         "C01" => c01::run(&mut ctx),
+        "C02" => c02::run(&mut ctx),
+        "C05" => c05::run(&mut ctx),
         "C09" => c09::run(&mut ctx),
+        "C17" => c17::run(&mut ctx),
+        "C18" => c18::run(&mut ctx),
         other => {
             eprintln!("unknown property {other}");
             std::process::exit(3)
